@@ -23,7 +23,7 @@ def main():
     discharge(obls)
     for o in obls:
         if o.status != 'valid':
-            print(o.status.upper(), o.fullname, o.reason or '', (o.model if o.status == 'violated' else ''))
+            print(o.status.upper(), o.fullname, o.reason or '', o.meta.get('exception', '') if hasattr(o, 'meta') else '', (o.model if o.status == 'violated' else ''))
     for o in sorted(obls, key=lambda o:-o.time)[:8]: print(f'   slow {o.time:.2f}s {o.backend} {o.fullname}')
     from collections import Counter
     print(Counter(o.status for o in obls), 'total', len(obls), 'time', time.time() - t0)
